@@ -393,6 +393,12 @@ struct url_aggregator : url_base {
   template <bool override_hostname = false>
   bool set_host_or_hostname(std::string_view input);
 
+  /**
+   * set_port() without the maximum-length check: used by set_port() itself and
+   * by the host setter, which checks the length once for the whole operation.
+   */
+  bool set_port_unchecked(std::string_view input);
+
   ada_really_inline bool parse_host(std::string_view input);
 
   inline void update_base_authority(std::string_view base_buffer,
